@@ -59,6 +59,7 @@ def check_cfg(ctx, fx, cfg):
     from props.c04 import check_submit_on_ok
     for e in RESTART_ENTRIES:
         check_submit_on_ok(ctx, fx, "R07.1", e, set(RESTART_ENTRIES))
+    check_default_strategy(ctx, fx, cfg)
     # R07.7 (shared with C10) "timers registered by the previous incarnation no longer fire": a timer is one registered task that
     # sleeps and submits in a loop of its own — which is what the restart aborts; a tick that re-arms the timer from the mailbox
     # (a new registration made by whichever incarnation handles the tick) survives the abort of the incarnation that created it
@@ -236,6 +237,39 @@ def check_cfg(ctx, fx, cfg):
             envs = [t for _, t in b.normal_calls() if is_env(t)]
             ok = len(envs) >= 2 and all(t["gargs"][:2] == ["A", want] for t in envs)
             ctx.require(ok, "R07.4", "terminal:%s@%s" % (term.split("::", 2)[-1], cfg), "the terminal must run the loop with the builder's own strategy (%s): %s" % (want, [t["gargs"][:2] for t in envs]), fn=term, site=f["loc"])
+
+
+def check_default_strategy(ctx, fx, cfg, RULE="R07.8"):
+    """"with the default strategy the same value receives stopped then started and keeps its state": outside the builder — whose
+    terminals run the loop with the strategy the builder state carries (R07.4) — every loop is created with the default strategy
+    (`RestartOnly`; stream loops never restart): a spawn entry point that quietly runs its actor under `RecreateFromDefault`
+    (spawn_default, the registry's spawn-on-demand) would replace the actor's state on a restart request"""
+    n = 0
+    work = [(f, t, 0) for f, _bi, t in graph.all_calls(fx, lambda t: (t.get("callee") or "").startswith("environment::Environment::<A, R>::") and (t.get("callee") or "").endswith(("::create_loop", "::create_loop_on_stream")))]
+    seen = set()
+    while work:
+        f, t, d = work.pop()
+        ga = t.get("gargs") or []
+        # which generic argument of the call is the strategy: the second one of `Environment::<A, R>::..`, or — for a helper that hands
+        # its own strategy parameter on — the position of that parameter
+        callee_fn = fx.callee_fn(t) or {}
+        cg = callee_fn.get("generics") or ["A", "R"]
+        si = cg.index("R") if "R" in cg else 1
+        strat = ga[si] if len(ga) > si else "?"
+        n += 1
+        root = fx.fn(f.get("root", f["def"])) or f
+        gens = root.get("generics") or []
+        ok = strat in ("actor::restart_strategy::RestartOnly", "actor::restart_strategy::NonRestartable") or (strat in gens and root["def"].startswith("actor::builder::"))
+        if not ok and strat in gens and d < 2 and root["def"] not in seen:
+            # a helper that runs the loop of the environment it is given (`Environment::<A, R>::launch(self, actor)`): the strategy is
+            # its caller's — judged there
+            seen.add(root["def"])
+            callers = [(g, t2) for g, _b2, t2 in graph.all_calls(fx, lambda x, _n=root["def"]: (x.get("resolved") or x.get("callee")) == _n)]
+            if callers and root.get("vis") != "pub":
+                work.extend((g, t2, d + 1) for g, t2 in callers)
+                continue
+        ctx.require(ok, RULE, "loop-strategy:%s@%s" % (f["def"], cfg), "a loop is created with the strategy %s outside the builder: the default strategy of a plain spawn is RestartOnly" % strat, fn=f["def"], site=t["l"], detail=ga)
+    ctx.floor(RULE, "loop creation sites (%s)" % cfg, n, 3)
 
 
 def check_restart_aborts_timers(ctx, fx, cfg, RULE):
